@@ -173,7 +173,7 @@ static int ck_seek(void *ck, off64_t *off, int whence)
     SFile *f = s->f;
     off64_t base = whence == SEEK_SET ? 0 : (whence == SEEK_CUR ? (off64_t)s->pos : (off64_t)f->n);
     off64_t np = base + *off;
-    if (s->std || np < 0) { errno = s->std ? ESPIPE : EINVAL; return -1; }    /* pipes and terminals do not seek */
+    if (s->std || np < 0 || (s->f && s->f->kind == 'p')) { errno = (s->std || np >= 0) ? ESPIPE : EINVAL; return -1; }    /* pipes and terminals do not seek */
     if (s->mode == 0 && np > (off64_t)f->n) np = (off64_t)f->n;
     s->pos = (size_t)np;
     *off = np;
@@ -274,8 +274,8 @@ int __wrap_stat(const char *path, struct stat *st)
     if (f && f->stat_err) { errno = f->stat_err; g_probe[PR_FS_STAT_FAULTS]++; return -1; }
     if (!f || f->kind == '?') { errno = ENOENT; g_probe[PR_FS_STAT_FAULTS]++; return -1; }
     memset(st, 0, sizeof *st);
-    st->st_mode = (f->kind == 'd' || f->kind == 'D') ? (S_IFDIR | 0755) : (S_IFREG | 0644);
-    st->st_size = (off_t)f->n;
+    st->st_mode = (f->kind == 'd' || f->kind == 'D') ? (S_IFDIR | 0755) : f->kind == 'p' ? (S_IFIFO | 0644) : (S_IFREG | 0644);
+    st->st_size = f->kind == 'p' ? 0 : (off_t)f->n;     /* 'p': a named pipe / process substitution / proc file: readable, size 0 */
     return 0;
 }
 
@@ -390,8 +390,8 @@ int __wrap_fstat(int fd, struct stat *sb)
     Stream *st = g_in_call ? fd_get(fd) : NULL;
     if (!st) return __real_fstat(fd, sb);
     memset(sb, 0, sizeof *sb);
-    sb->st_mode = (st->f->kind == 'd' || st->f->kind == 'D') ? (S_IFDIR | 0755) : (S_IFREG | 0644);
-    sb->st_size = (off_t)st->f->n;
+    sb->st_mode = (st->f->kind == 'd' || st->f->kind == 'D') ? (S_IFDIR | 0755) : st->f->kind == 'p' ? (S_IFIFO | 0644) : (S_IFREG | 0644);
+    sb->st_size = st->f->kind == 'p' ? 0 : (off_t)st->f->n;
     return 0;
 }
 
